@@ -86,6 +86,7 @@ type FS struct {
 	gen    int64
 
 	ops    int // number of mutating operations so far
+	reads  int // number of non-mutating operations so far
 	log    []LogEntry
 	logOn  bool
 	logAll bool // also log open/read/list
@@ -120,6 +121,9 @@ func New() *FS {
 
 // Ops returns the number of mutating operations performed so far.
 func (v *FS) Ops() int { v.mu.Lock(); defer v.mu.Unlock(); return v.ops }
+
+// Reads returns the number of non-mutating operations (open, read, list) so far.
+func (v *FS) Reads() int { v.mu.Lock(); defer v.mu.Unlock(); return v.reads }
 
 // SetLogAll makes the log include open/read/list operations.
 func (v *FS) SetLogAll(on bool) { v.mu.Lock(); v.logAll = on; v.mu.Unlock() }
@@ -341,6 +345,9 @@ func (v *FS) matchFault(kind string, ft storage.FileType) (Fault, bool) {
 // the operation mutates the storage (those are crash points).
 func (v *FS) step(kind string, fd storage.FileDesc, n int, mut bool) (Fault, error) {
 	e := LogEntry{Kind: kind, FType: TypeName(fd.Type), Num: fd.Num, N: n}
+	if !mut {
+		v.reads++
+	}
 	if mut {
 		v.ops++
 		if v.crashAt > 0 && v.ops == v.crashAt && v.image == nil {
